@@ -71,9 +71,18 @@ def run(ctx):
     # larger ones, so that file data straddles block boundaries at many offsets
     if not ctx.has_failing_input():
         with slevel.Sandbox("c01") as sb:
-            H = runs.History(ctx, sb, rng, "C01", 3, 4, identity_changes=True)
+            H = runs.History(ctx, sb, rng, "C01", 3, 4, nitems=2, identity_changes=True)
             top = os.path.join(H.w.src, H.w.items[0])
             os.makedirs(os.path.join(top, "small"))
+            # copies of a file of the first item several new directory levels deep in the second item (walked later): their data is restored
+            # when the first file's entry is read, before any of their parent directories has been seen
+            dup = rng.randbytes(5000)
+            H.w.write_file(os.path.join(top, "original.bin"), dup)
+            deep = os.path.join(H.w.src, H.w.items[1], "vendor", "lib", "pkg", "deep")
+            os.makedirs(deep)
+            H.w.write_file(os.path.join(deep, "copy.bin"), dup)
+            os.makedirs(os.path.join(H.w.src, H.w.items[1], "two", "levels"))
+            H.w.write_file(os.path.join(H.w.src, H.w.items[1], "two", "levels", "copy2.bin"), dup)
             for i in range(500 if thorough else 260):
                 n = rng.choice([1, 2, 511, 1536, 3000, 4095, 4096, 4097, rng.randrange(1, 4097)])
                 H.w.write_file(os.path.join(top, "small", "f%04d" % i), rng.randbytes(n))
